@@ -286,11 +286,73 @@ var govcC04FlowPlaces = []struct {
 	}},
 }
 
+// third family: CSS declaration syntax of the inline hiding styles. A hiding declaration is a
+// (property, value) pair; a syntax variant writes it into a style attribute the way real pages do
+// (!important in several spellings, letter case, neighbouring declarations, trailing semicolon,
+// white space, look-alike properties next to the real one, repeated declarations where the last
+// one wins). Every variant below hides the element in a browser, so the text must never leak.
+type govcC04Decl struct{ name, prop, val, visible string }
+
+var govcC04Decls = []govcC04Decl{
+	{"display-none", "display", "none", "block"},
+	{"visibility-hidden", "visibility", "hidden", "visible"},
+	{"visibility-collapse", "visibility", "collapse", "visible"},
+}
+
+type govcC04Syntax struct {
+	name  string
+	style func(d govcC04Decl) string
+}
+
+func govcC04Title(s string) string { return strings.ToUpper(s[:1]) + s[1:] }
+
+var govcC04Syntaxes = []govcC04Syntax{
+	{"important", func(d govcC04Decl) string { return d.prop + ":" + d.val + " !important" }},
+	{"important-tight", func(d govcC04Decl) string { return d.prop + ": " + d.val + "!important" }},
+	{"important-spaced-bang", func(d govcC04Decl) string { return d.prop + ": " + d.val + " ! important" }},
+	{"important-upper-semi", func(d govcC04Decl) string { return d.prop + ":" + d.val + "  !IMPORTANT;" }},
+	{"important-after-others", func(d govcC04Decl) string { return "color: red; " + d.prop + ": " + d.val + " !important" }},
+	{"important-upper-prop-semi", func(d govcC04Decl) string {
+		return strings.ToUpper(d.prop) + ": " + d.val + " ! important;"
+	}},
+	{"important-minified-middle", func(d govcC04Decl) string {
+		return "margin:0;" + d.prop + ":" + d.val + "!important;color:red"
+	}},
+	{"upper-prop", func(d govcC04Decl) string { return strings.ToUpper(d.prop) + ":" + d.val }},
+	{"upper-value", func(d govcC04Decl) string { return d.prop + ":" + strings.ToUpper(d.val) }},
+	{"title-case-both", func(d govcC04Decl) string { return govcC04Title(d.prop) + ": " + govcC04Title(d.val) }},
+	{"upper-both-semi", func(d govcC04Decl) string { return strings.ToUpper(d.prop) + ": " + strings.ToUpper(d.val) + ";" }},
+	{"semi", func(d govcC04Decl) string { return d.prop + ":" + d.val + ";" }},
+	{"space-semi", func(d govcC04Decl) string { return d.prop + ": " + d.val + " ;" }},
+	{"others-before", func(d govcC04Decl) string { return "color:red;margin:0 auto;" + d.prop + ":" + d.val }},
+	{"others-after-nosemi", func(d govcC04Decl) string { return d.prop + ":" + d.val + ";color:red" }},
+	{"others-around-semi", func(d govcC04Decl) string {
+		return "color: red; " + d.prop + ": " + d.val + "; margin: 0 auto; font-size: 12px;"
+	}},
+	{"leading-space-semi", func(d govcC04Decl) string { return " ; " + d.prop + ":" + d.val }},
+	{"newline-tab", func(d govcC04Decl) string { return "color:red;\n\t" + d.prop + ":\n\t\t" + d.val + ";\n" }},
+	{"lookalike-before", func(d govcC04Decl) string {
+		return "backface-visibility:visible;content-visibility:visible;" + d.prop + ":" + d.val
+	}},
+	{"lookalike-after", func(d govcC04Decl) string {
+		return d.prop + ":" + d.val + ";backface-visibility:visible;content-visibility:auto"
+	}},
+	{"lookalike-hidden-before", func(d govcC04Decl) string {
+		return "backface-visibility: hidden; " + d.prop + ": " + d.val + ";"
+	}},
+	{"repeated-last-wins", func(d govcC04Decl) string {
+		return d.prop + ":" + d.visible + ";" + d.prop + ":" + d.val
+	}},
+	{"repeated-same", func(d govcC04Decl) string {
+		return d.prop + ":" + d.val + ";color:red;" + d.prop + ":" + d.val + " !important"
+	}},
+}
+
 func TestGovcHiddenReplay(t *testing.T) {
 	evals, nontrivial, samples := 0, 0, 0
 	defer func() {
 		fmt.Printf("GOVC-CASES evaluations=%d distinct_nontrivial=%d rule=%s\n", evals, nontrivial,
-			"family 1: hiding mechanism (display:none variants, hidden, visibility hidden/collapse, aria-hidden, script, style, script/style with style=display:block (every placement), comment, head script/style) x placement (paragraph, list item, blockquote, data-table cell/row, figcaption with/without link, figure without caption) x {no other attributes, other attributes}; family 2: form controls/noscript/svg/object/embed/applet/unrecognised iframe x main-flow placement x attributes; plus the aria-hidden fallback-image case; one document and one unique leak token per case; non-trivial = the visible marker token next to the hidden element reached Result.Text and Result.Node, i.e. the surrounding container was retained")
+			"family 1: hiding mechanism (display:none variants, hidden, visibility hidden/collapse, aria-hidden, script, style, script/style with style=display:block (every placement), comment, head script/style) x placement (paragraph, list item, blockquote, data-table cell/row, figcaption with/without link, figure without caption) x {no other attributes, other attributes}; family 2: form controls/noscript/svg/object/embed/applet/unrecognised iframe x main-flow placement x attributes; plus the aria-hidden fallback-image case; family 3: hiding declaration (display:none, visibility:hidden, visibility:collapse) x CSS declaration syntax (!important in 7 spellings/positions, upper/title case of property and/or value, trailing semicolon, other declarations before/after/around, white space incl. newline/tab, look-alike properties backface-visibility/content-visibility next to the real declaration, repeated declarations) x every placement; one document and one unique leak token per case; non-trivial = the visible marker token next to the hidden element reached Result.Text and Result.Node, i.e. the surrounding container was retained")
 	}()
 
 	check := func(key, src, token, mark, hidden string) {
@@ -372,6 +434,25 @@ func TestGovcHiddenReplay(t *testing.T) {
 		token, mark := "leak9001q", "mark9001q"
 		hidden := `<span aria-hidden="true" class="mwe-math-fallback-image-inline">` + token + `</span>`
 		check("aria-hidden-fallback-image/paragraph", govcC04Doc("", govcC04Places[0].build(mark, hidden)), token, mark, hidden)
+	}
+	// family 3: CSS declaration syntax of the inline hiding styles x placement
+	for _, d := range govcC04Decls {
+		for _, sx := range govcC04Syntaxes {
+			m := govcC04AttrMech("css-"+d.name+"-"+sx.name, `style="`+sx.style(d)+`"`)
+			for _, p := range govcC04Places {
+				n++
+				token := fmt.Sprintf("leak%04dq", n)
+				mark := fmt.Sprintf("mark%04dq", n)
+				inner := token
+				if p.raw {
+					inner = "<td>" + token + "</td><td>" + token + "b</td><td>1</td>"
+				} else if p.hiddenTag == "li" {
+					inner = token + " is a list item that the page hides from its readers."
+				}
+				hidden := m.build(p.hiddenTag, "", inner)
+				check(m.name+"/"+p.name+"/bare", govcC04Doc("", p.build(mark, hidden)), token, mark, hidden)
+			}
+		}
 	}
 }
 
@@ -555,11 +636,99 @@ func govcC05Violations(root *html.Node) []string {
 	return out
 }
 
+// second family of C05: foreign-content and other "special" element kinds (inline svg, MathML,
+// picture/source, details/summary, ruby, audio, custom elements) carrying the attribute sets on the
+// element itself and/or on its deepest descendants, placed inside content that the distiller clones
+// wholesale (retained data table cell, figure caption with a link, twitter blockquote) and in the
+// main flow (inside a paragraph, as a block of its own).
+type govcC05Special struct {
+	name  string
+	tags  string // elements of the kind (space separated); one of them in the output = the kind was retained
+	build func(self, deep govcC05Set, child string) string
+}
+
+var govcC05Specials = []govcC05Special{
+	{"svg-path", "svg path", func(s, d govcC05Set, child string) string {
+		return `<svg viewBox="0 0 10 10" width="10" height="10"` + s.attrs("") + `><path d="M0 10 L5 0 L10 10 Z" fill="green"` + d.attrs("") + `></path>` + child + `</svg>`
+	}},
+	{"svg-g-use", "svg g use circle", func(s, d govcC05Set, child string) string {
+		return `<svg xmlns="http://www.w3.org/2000/svg" xmlns:xlink="http://www.w3.org/1999/xlink" viewBox="0 0 24 24" role="img"` + s.attrs("") + `><g fill="none"><g transform="translate(1 1)"><use href="#icon-up" xlink:href="#icon-up"` + d.attrs("") + `></use><circle cx="5" cy="5" r="4"` + d.attrs("") + `></circle>` + child + `</g></g></svg>`
+	}},
+	{"svg-text-tspan", "svg text tspan", func(s, d govcC05Set, child string) string {
+		return `<svg width="40" height="12"` + s.attrs("") + `><text x="0" y="10"><tspan` + d.attrs("") + `>up</tspan></text>` + child + `</svg>`
+	}},
+	{"math-msup", "math msup mi mn", func(s, d govcC05Set, child string) string {
+		return `<math xmlns="http://www.w3.org/1998/Math/MathML" display="inline"` + s.attrs("") + `><mrow><msup><mi` + d.attrs("") + `>x</mi><mn` + d.attrs("") + `>2</mn></msup><mo>=</mo><mn>4</mn></mrow>` + child + `</math>`
+	}},
+	{"math-annotation", "math mi annotation", func(s, d govcC05Set, child string) string {
+		return `<math` + s.attrs("") + `><semantics><mrow><mi mathvariant="normal"` + d.attrs("") + `>y</mi></mrow><annotation encoding="application/x-tex"` + d.attrs("") + `>y</annotation></semantics>` + child + `</math>`
+	}},
+	{"picture-source", "picture source", func(s, d govcC05Set, child string) string {
+		return `<picture` + s.attrs("") + `><source srcset="/images/icon.webp 1x" type="image/webp"` + d.attrs("") + `>` + child + `<img src="/images/icon.png" width="32" height="32" alt="trend icon"` + d.attrs("") + `></picture>`
+	}},
+	{"details-summary", "details summary", func(s, d govcC05Set, child string) string {
+		return `<details open` + s.attrs("") + `><summary` + d.attrs("") + `>How it was measured</summary><div><p><span` + d.attrs("") + `>With a steel probe and a very patient diver</span></p></div>` + child + `</details>`
+	}},
+	{"ruby-rt", "ruby rt", func(s, d govcC05Set, child string) string {
+		return `<ruby` + s.attrs("") + `>港<rp>(</rp><rt` + d.attrs("") + `>minato</rt><rp>)</rp>` + child + `</ruby>`
+	}},
+	{"audio-source", "audio", func(s, d govcC05Set, child string) string {
+		return `<audio controls` + s.attrs("") + `><source src="/media/interview.mp3" type="audio/mpeg"` + d.attrs("") + `>` + child + `</audio>`
+	}},
+	{"custom-element", "x-trend x-trend-label", func(s, d govcC05Set, child string) string {
+		return `<x-trend direction="up"` + s.attrs("") + `><x-trend-label` + d.attrs("") + `>rising</x-trend-label>` + child + `</x-trend>`
+	}},
+}
+
+type govcC05Host struct {
+	name     string
+	build    func(special string) string
+	retained func(root *html.Node) bool
+}
+
+func govcC05Placeholder(r *html.Node, kind, innerTag string) bool {
+	for _, e := range dom.GetElementsByTagName(r, "div") {
+		if govcC04IsPlaceholder(e) && dom.GetAttribute(e, "data-type") == kind && govcC05HasTag(e, innerTag) {
+			return true
+		}
+	}
+	return false
+}
+
+var govcC05Hosts = []govcC05Host{
+	{"table-cell", func(sp string) string {
+		return `<table><caption>hostprobe condition of the piles</caption>` +
+			`<thead><tr><th>Pile</th><th>Trend</th><th>Condition</th></tr></thead><tbody>` +
+			`<tr><td>North one</td><td>` + sp + ` since the last survey</td><td>good</td></tr>` +
+			`<tr><td>North two</td><td>unchanged</td><td>good</td></tr><tr><td>South one</td><td>unchanged</td><td>fair</td></tr></tbody></table>`
+	}, func(r *html.Node) bool {
+		return govcC05HasTagWithText(r, "table", "hostprobe") && govcC05HasTag(r, "td")
+	}},
+	{"figcaption-link", func(sp string) string {
+		return `<figure><img src="/images/piles.jpg" width="640" height="420" alt="Oak piles"><figcaption>hostprobe the oak piles ` + sp + ` photo by <a href="/people/archive">the town archive</a></figcaption></figure>`
+	}, func(r *html.Node) bool { return govcC05HasTagWithText(r, "figcaption", "hostprobe") }},
+	{"twitter-blockquote", func(sp string) string {
+		return `<blockquote class="twitter-tweet"><p lang="en" dir="ltr">hostprobe the piles are fine ` + sp + ` as you can see</p>&mdash; Town surveyor <a href="https://twitter.com/surveyor/status/1234567890123">June 3, 2026</a></blockquote>`
+	}, func(r *html.Node) bool { return govcC05Placeholder(r, "twitter", "blockquote") }},
+	{"flow-paragraph", func(sp string) string {
+		return `<p>hostprobe ` + govcC05Text + ` ` + sp + ` and the trend has been the same for a decade.</p>`
+	}, func(r *html.Node) bool { return govcC05HasTagWithText(r, "p", "hostprobe") }},
+	{"flow-block", func(sp string) string {
+		return `<p>hostprobe ` + govcC05Text + `.</p><div>` + sp + `</div>`
+	}, func(r *html.Node) bool { return govcC05HasTagWithText(r, "p", "hostprobe") }},
+}
+
+var govcC05SpecialChildren = []struct{ name, markup string }{
+	{"script-bare", `<script>govcEvil(20)</script>`},
+	{"style-bare", `<style>.a { fill: red }</style>`},
+	{"style-attrs", `<style type="text/css" id="govcs3">path { fill: blue }</style>`},
+}
+
 func TestGovcInertReplay(t *testing.T) {
 	evals, nontrivial, samples := 0, 0, 0
 	defer func() {
 		fmt.Printf("GOVC-CASES evaluations=%d distinct_nontrivial=%d rule=%s\n", evals, nontrivial,
-			"element kind (paragraph with one inline child, mixed paragraph, div/h2 with one inline child, list, blockquote, pre, img, picture, figure with/without caption link, video, data table, youtube iframe, twitter blockquote) x attribute set (id, class, style, onclick, onload/onerror, upper-case on*, data-*, several) x position (element itself, block ancestor, descendants, all) plus each kind x script/style child (bare, with attributes, with style=display:block); one document per case; non-trivial = the element kind was found retained in Result.Node")
+			"element kind (paragraph with one inline child, mixed paragraph, div/h2 with one inline child, list, blockquote, pre, img, picture, figure with/without caption link, video, data table, youtube iframe, twitter blockquote) x attribute set (id, class, style, onclick, onload/onerror, upper-case on*, data-*, several) x position (element itself, block ancestor, descendants, all) plus each kind x script/style child (bare, with attributes, with style=display:block); second family: special element kind (inline svg with path / g+use+circle / text+tspan, MathML msup / semantics+annotation, picture+source, details+summary, ruby+rt, audio+source, custom element) x host (retained data table cell, figure caption with a link, twitter blockquote, inside a main-flow paragraph, block of its own) x attribute set x position (the element itself, its deepest descendants, both) plus script/style children inside the special element; one document per case; non-trivial = the element kind was found retained in Result.Node (second family: host retained and the special element or one of its descendants present in the output)")
 	}()
 
 	check := func(key string, k govcC05Kind, probe string) {
@@ -606,6 +775,41 @@ func TestGovcInertReplay(t *testing.T) {
 		}
 		for _, c := range govcC05Children {
 			check(k.name+"/child-"+c.name+"/inside", k, k.build(govcC05None, govcC05None, govcC05None, c.markup))
+		}
+	}
+
+	// second family: special element kind x host x attribute set x position, plus script/style children
+	for _, sp := range govcC05Specials {
+		for _, h := range govcC05Hosts {
+			sp, h := sp, h
+			k := govcC05Kind{name: "sp-" + sp.name, retained: func(r *html.Node) bool {
+				if !h.retained(r) {
+					return false
+				}
+				for _, tag := range strings.Fields(sp.tags) {
+					if govcC05HasTag(r, tag) {
+						return true
+					}
+				}
+				return false
+			}}
+			for _, s := range govcC05Sets {
+				for _, pos := range []string{"self", "deep", "all"} {
+					self, deep := govcC05None, govcC05None
+					switch pos {
+					case "self":
+						self = s
+					case "deep":
+						deep = s
+					case "all":
+						self, deep = s, s
+					}
+					check(k.name+"/"+h.name+"/"+s.name+"/"+pos, k, h.build(sp.build(self, deep, "")))
+				}
+			}
+			for _, c := range govcC05SpecialChildren {
+				check(k.name+"/"+h.name+"/child-"+c.name+"/inside", k, h.build(sp.build(govcC05None, govcC05None, c.markup)))
+			}
 		}
 	}
 }
